@@ -642,20 +642,36 @@ func (f *Facts) lenAtLeast(x ssa.Value, k int64) bool {
 	if lenLowerBoundByDef(x) >= k {
 		return true
 	}
-	// all smaller lengths excluded by disequalities: len != 0, len != 1, …
+	// all smaller lengths excluded: by a known lower bound (len ≥ m) and by disequalities
+	// (len != m, len != m+1, …)
 	excluded := map[int64]bool{}
+	lower := lenLowerBoundByDef(x)
 	for _, c := range f.Cmps {
 		l, op, r := c.L, c.Op, c.R
 		if sameLenTerm(r, want) && l.IsConst {
 			l, r = r, l
+			op = flipOp(op)
 		}
-		if sameLenTerm(l, want) && r.IsConst && op == token.NEQ {
-			excluded[r.K-l.Off] = true
+		if !sameLenTerm(l, want) || !r.IsConst {
+			continue
+		}
+		K := r.K - l.Off
+		switch op {
+		case token.NEQ:
+			excluded[K] = true
+		case token.GEQ:
+			if K > lower {
+				lower = K
+			}
+		case token.GTR:
+			if K+1 > lower {
+				lower = K + 1
+			}
 		}
 	}
 	if len(excluded) > 0 {
-		for i := int64(0); i < k; i++ {
-			if !excluded[i] {
+		for i := lower; i < k; i++ {
+			if i >= 0 && !excluded[i] {
 				return false
 			}
 		}
